@@ -9,7 +9,8 @@ from . import common as C
 
 TECHNIQUE = "static analysis: provenance agreement between paired output expressions (same origin attribute / same call on the same object), field def-use (a reported field whose only writers store a constant), guard agreement of the unknown-instruction branch, warning-flag threading, literal architecture tables vs data files, --help and README"
 EXPLANATION = (
-    "R1: for each pair (port cell/PortPressure, CP cell/LatencyCP, LCD cell/LatencyLCD, summary "
+    "R1: for each pair (port cell/PortPressure, CP cell/LatencyCP, LCD cell/LatencyLCD incl. 'the same cycle is "
+    "selected among equally long ones', summary "
     "ports/Summary.PortPressure, CP total/Summary.CriticalPath, LCD figure/Summary.LCD, LCD list rows/"
     "get_loopcarried_dependencies entries) the text-side and dict-side expressions have the same origin; a "
     "dict field read from an attribute whose only writers store a constant while the text value is "
